@@ -403,7 +403,8 @@ pub fn split_into_files(doc: &ExecDoc, rng: &mut Rng) -> Vec<(String, ExecDoc)> 
             ExecDef::Import(_) => {}
         }
     }
-    // imports: every file imports the fragments its definitions spread directly and that live elsewhere
+    // imports: every file imports the fragments its definitions need *transitively* and that live elsewhere
+    // (importing F does not bring the fragments F spreads, unless the imported file imports them itself)
     for i in 0..files.len() {
         let mut direct: Vec<String> = vec![];
         for d in &files[i].defs {
@@ -413,6 +414,20 @@ pub fn split_into_files(doc: &ExecDoc, rng: &mut Rng) -> Vec<(String, ExecDoc)> 
                 _ => continue,
             };
             direct_spreads(ss, &mut direct);
+        }
+        // transitive closure through fragment bodies
+        let mut k = 0;
+        while k < direct.len() {
+            if let Some(f) = doc.frag(&direct[k].clone()) {
+                let mut more = vec![];
+                direct_spreads(&f.sels, &mut more);
+                for m in more {
+                    if !direct.contains(&m) {
+                        direct.push(m);
+                    }
+                }
+            }
+            k += 1;
         }
         direct.sort();
         direct.dedup();
